@@ -1,6 +1,8 @@
 package tax
 
 import (
+	"fmt"
+
 	"github.com/invopop/gobl/l10n"
 	"github.com/invopop/jsonschema"
 )
@@ -37,6 +39,18 @@ func (r *Regime) SetRegime(country l10n.TaxCountryCode) {
 // RegimeDef provides the associated regime definition.
 func (r Regime) RegimeDef() *RegimeDef {
 	return Regimes().For(r.Country.Code())
+}
+
+// Validate ensures that the regime code, when present, refers to a tax regime
+// that has been defined.
+func (r Regime) Validate() error {
+	if r.Country.Empty() {
+		return nil
+	}
+	if r.RegimeDef() == nil {
+		return fmt.Errorf("$regime: '%s' not defined", r.Country.String())
+	}
+	return nil
 }
 
 // IsEmpty returns true if the regime is empty.
